@@ -92,6 +92,7 @@ func init() {
 				stdPeerTree(p, false)
 				p.Connect()
 			}
+			w.EnableFaults("net.dup")
 			d.snap(w)
 			ready := false
 			w.Go("setup", func() {
